@@ -63,6 +63,18 @@ for f in os.listdir(src):
     if f == "meta.json" or f.endswith(".log") or os.path.abspath(src) == os.path.abspath(dst):
         continue
     shutil.copy(os.path.join(src, f), os.path.join(dst, f))
+prev_meta = {}
+try:
+    prev_meta = json.load(open(os.path.join(dst, "meta.json")))
+except Exception:
+    pass
+if prev_meta.get("verification"):
+    hist = prev_meta.get("previous_verifications", [])
+    pv = prev_meta["verification"]
+    hist.append({k: pv.get(k) for k in ("checked_at", "caught", "caught_with_failing_input")} | {"check": pv.get("check", {})})
+    meta["previous_verifications"] = hist
+    if pv.get("other_checks"):
+        res["other_checks"] = pv["other_checks"]
 meta["verification"] = res
 json.dump(meta, open(os.path.join(dst, "meta.json"), "w"), indent=1)
 print(json.dumps(res, indent=1))
